@@ -705,8 +705,12 @@ class C17(core.Check):
             reqs += [f"c17.curveline {p1} {p2} {r(t)}" for t in impl["used_params"]]
             return reqs
         if k == "curve" and case["curve"]["c"] == "linear":
-            knots = " ".join(f"{r(kn)} {enc_v(pt)}" for kn, pt in zip(impl["knots"], impl["knot_points"]))
-            return [f"c17.poly {r(t)} {knots}" for t in [impl["param0"]] + impl["used_params"]]
+            # the model computes the chord-length parameters itself from the GIVEN points; the segment lengths enter
+            # as square-root witnesses the harness computes from the case (not read off the library)
+            pts = [FV(q) for q in case["curve"]["pts"]]
+            lens = [math.sqrt(sum((b - a) ** 2 for a, b in zip(p0, p1))) for p0, p1 in zip(pts, pts[1:])]
+            tail = " ".join(enc_v(q) for q in pts) + " " + " ".join(r(ln) for ln in lens)
+            return [f"c17.chord {r(t)} {len(pts)} {tail}" for t in [impl["param0"]] + impl["used_params"]]
         if k == "surface" and surface_exact(case["surface"], case["frame"])[0]:
             kind, pts = surface_exact(case["surface"], case["frame"])
             op = "c17.surfplane" if kind == "plane" else "c17.surfbilinear"
@@ -773,7 +777,13 @@ class C17(core.Check):
                     return w
         elif k == "curve" and case["curve"]["c"] == "linear" and model:
             for t, a, p in zip([impl["param0"]] + impl["used_params"], model, [impl["initial"]] + impl["positions"]):
-                w = chk(a, p, POS_TOL, f"CurveClamp(LinearInterpolatedCurve) at t={t}")
+                parts = a.split()
+                if len(parts) != 2 or not parts[0].startswith("["):
+                    return f"CurveClamp(LinearInterpolatedCurve): model answers {a[:80]}"
+                mk = [float(core.parse_rat(x)) for x in parts[0].strip("[]").split(",")]
+                if len(mk) != len(impl["knots"]) or any(abs(x - y) > 1e-12 for x, y in zip(mk, impl["knots"])):
+                    return f"LinearInterpolatedCurve parameters: model (chord length) {mk}, implementation {impl['knots']}"
+                w = chk(parts[1], p, POS_TOL, f"CurveClamp(LinearInterpolatedCurve) at t={t}")
                 if w:
                     return w
         elif k == "surface" and model:
